@@ -9,13 +9,131 @@ package operationapplier
 //@ spec effUntil(from int64, until int64, delta uint64) Z { cond(from != 0 && until == 0, from + delta, until) }
 //@ spec inWindow(from int64, until int64, anchor uint64, delta uint64) bool {
 //@     (from == 0 && until == 0) || (from <= anchor && anchor <= effUntil(from, until, delta)) }
-//@ spec saneWindow(from int64, until int64, delta uint64) bool {
-//@     0 <= from && from < 4611686018427387904 && 0 <= until && until < 4611686018427387904 && delta < 4611686018427387904 }
+//@ spec big() Z { 4611686018427387904 }
 //
 //@ func (*Applier).getAnchorUntil
-//@   requires s != nil && saneWindow(from, until, s.MaxOperationTimeDelta)
+//@   requires s != nil && from < big() && s.MaxOperationTimeDelta < big()
 //@   ensures  result == effUntil(from, until, s.MaxOperationTimeDelta)
 //
 //@ func (*Applier).verifyAnchoringTimeRange
-//@   requires s != nil && saneWindow(from, until, s.MaxOperationTimeDelta) && anchor < 4611686018427387904
+//@   requires s != nil && s.MaxOperationTimeDelta < big() && anchor < big()
 //@   ensures  (result == nil) == inWindow(from, until, anchor, s.MaxOperationTimeDelta)
+//
+// ---- abstraction of parsed requests (uninterpreted functions of the request bytes / compact JWS) ----
+//
+//@ spec reqSD(req bytes) string
+//@ spec reqDelta(req bytes) *model.DeltaModel
+//@ spec reqReveal(req bytes) string
+//@ spec reqSuffix(req bytes) string
+//@ spec reqSuffixData(req bytes) *model.SuffixDataModel
+//@ spec updKey(c string) *jws.JWK
+//@ spec updDeltaHash(c string) string
+//@ spec updFrom(c string) int64
+//@ spec updUntil(c string) int64
+//@ spec recKey(c string) *jws.JWK
+//@ spec recDeltaHash(c string) string
+//@ spec recCommit(c string) string
+//@ spec recOrigin(c string) any
+//@ spec recFrom(c string) int64
+//@ spec recUntil(c string) int64
+//@ spec deaKey(c string) *jws.JWK
+//@ spec deaSuffix(c string) string
+//@ spec deaFrom(c string) int64
+//@ spec deaUntil(c string) int64
+//@ spec deltaValid(parser any, d *model.DeltaModel) bool
+//@ spec suffixValid(parser any, d *model.SuffixDataModel) bool
+//@ spec patchOK(doc document.Document, patches []patch.Patch) bool
+//@ spec patched(doc document.Document, patches []patch.Patch) document.Document
+//
+// C01: an operation is authorised when its reveal value is the hash of the signing key inside its own signed
+// data and the compact JWS verifies under that same key.
+//@ spec authUpdate(req bytes) bool { validMH(boxed(updKey(reqSD(req))), reqReveal(req)) && sigValid(reqSD(req), updKey(reqSD(req))) }
+//@ spec authRecover(req bytes) bool { validMH(boxed(recKey(reqSD(req))), reqReveal(req)) && sigValid(reqSD(req), recKey(reqSD(req))) }
+//@ spec authDeactivate(req bytes) bool { validMH(boxed(deaKey(reqSD(req))), reqReveal(req)) && sigValid(reqSD(req), deaKey(reqSD(req))) && deaSuffix(reqSD(req)) == reqSuffix(req) }
+//
+//@ iface OperationParser.ParseCreateOperation
+//@   results op, err
+//@   ensures err == nil ==> op != nil && fresh(op) && op.SuffixData == reqSuffixData(request) && op.SuffixData != nil && op.Delta == reqDelta(request) && op.Type == operation.TypeCreate
+//@ iface OperationParser.ParseUpdateOperation
+//@   results op, err
+//@   ensures err == nil ==> op != nil && fresh(op) && op.SignedData == reqSD(request) && op.Delta == reqDelta(request) && op.RevealValue == reqReveal(request) && op.UniqueSuffix == reqSuffix(request) && op.Type == operation.TypeUpdate
+//@   ensures err == nil ==> validMH(boxed(updKey(reqSD(request))), reqReveal(request))
+//@ iface OperationParser.ParseRecoverOperation
+//@   results op, err
+//@   ensures err == nil ==> op != nil && fresh(op) && op.SignedData == reqSD(request) && op.Delta == reqDelta(request) && op.RevealValue == reqReveal(request) && op.UniqueSuffix == reqSuffix(request) && op.Type == operation.TypeRecover
+//@   ensures err == nil ==> validMH(boxed(recKey(reqSD(request))), reqReveal(request))
+//@ iface OperationParser.ParseDeactivateOperation
+//@   results op, err
+//@   ensures err == nil ==> op != nil && fresh(op) && op.SignedData == reqSD(request) && op.RevealValue == reqReveal(request) && op.UniqueSuffix == reqSuffix(request) && op.Type == operation.TypeDeactivate
+//@   ensures err == nil ==> validMH(boxed(deaKey(reqSD(request))), reqReveal(request))
+//@ iface OperationParser.ParseSignedDataForUpdate
+//@   results m, err
+//@   ensures err == nil ==> m != nil && fresh(m) && m.UpdateKey == updKey(compactJWS) && m.UpdateKey != nil && m.DeltaHash == updDeltaHash(compactJWS) && m.AnchorFrom == updFrom(compactJWS) && m.AnchorUntil == updUntil(compactJWS)
+//@ iface OperationParser.ParseSignedDataForRecover
+//@   results m, err
+//@   ensures err == nil ==> m != nil && fresh(m) && m.RecoveryKey == recKey(compactJWS) && m.RecoveryKey != nil && m.DeltaHash == recDeltaHash(compactJWS) && m.RecoveryCommitment == recCommit(compactJWS) && m.AnchorOrigin == recOrigin(compactJWS) && m.AnchorFrom == recFrom(compactJWS) && m.AnchorUntil == recUntil(compactJWS)
+//@ iface OperationParser.ParseSignedDataForDeactivate
+//@   results m, err
+//@   ensures err == nil ==> m != nil && fresh(m) && m.RecoveryKey == deaKey(compactJWS) && m.RecoveryKey != nil && m.DidSuffix == deaSuffix(compactJWS) && m.AnchorFrom == deaFrom(compactJWS) && m.AnchorUntil == deaUntil(compactJWS)
+//@ iface OperationParser.ValidateDelta
+//@   ensures (result == nil) == (delta != nil && deltaValid(this, delta))
+//@ iface OperationParser.ValidateSuffixData
+//@   ensures (result == nil) == (suffixData != nil && suffixValid(this, suffixData))
+//@ iface api/protocol.DocumentComposer.ApplyPatches
+//@   results out, err
+//@   ensures (err == nil) == patchOK(doc, patches)
+//@   ensures err == nil ==> out == patched(doc, patches) && out != nil && fresh(out)
+//
+//@ spec applierOK(s *Applier) bool { s != nil && s.OperationParser != nil && s.DocumentComposer != nil && s.MaxOperationTimeDelta < big() }
+//@ spec carried(r *protocol.ResolutionModel, op *operation.AnchoredOperation, rm *protocol.ResolutionModel) bool {
+//@     r.LastOperationTransactionTime == op.TransactionTime && r.LastOperationTransactionNumber == op.TransactionNumber &&
+//@     r.LastOperationProtocolVersion == op.ProtocolVersion && r.VersionID == op.CanonicalReference &&
+//@     r.PublishedOperations == rm.PublishedOperations && r.UnpublishedOperations == rm.UnpublishedOperations }
+//
+// ---- C03 / C01 / C04 / C05: per-type effects ----
+//
+//@ func (*Applier).applyCreateOperation
+//@   requires applierOK(s) && anchoredOp != nil && rm != nil
+//@   ensures err == nil ==> r0 != nil && fresh(r0) && rm.Doc == nil
+//@   ensures err == nil ==> r0.RecoveryCommitment == reqSuffixData(anchoredOp.OperationRequest).RecoveryCommitment && r0.AnchorOrigin == reqSuffixData(anchoredOp.OperationRequest).AnchorOrigin
+//@   ensures err == nil ==> r0.CreatedTime == anchoredOp.TransactionTime && r0.CanonicalReference == anchoredOp.CanonicalReference && r0.EquivalentReferences == anchoredOp.EquivalentReferences && !r0.Deactivated && carried(r0, anchoredOp, rm)
+//@   ensures err == nil && !(validMH(boxed(reqDelta(anchoredOp.OperationRequest)), reqSuffixData(anchoredOp.OperationRequest).DeltaHash) && reqDelta(anchoredOp.OperationRequest) != nil && deltaValid(s.OperationParser, reqDelta(anchoredOp.OperationRequest))) ==> r0.UpdateCommitment == "" && r0.Doc != nil && fresh(r0.Doc)
+//@   ensures err == nil && validMH(boxed(reqDelta(anchoredOp.OperationRequest)), reqSuffixData(anchoredOp.OperationRequest).DeltaHash) && reqDelta(anchoredOp.OperationRequest) != nil && deltaValid(s.OperationParser, reqDelta(anchoredOp.OperationRequest)) ==> r0.UpdateCommitment == reqDelta(anchoredOp.OperationRequest).UpdateCommitment
+//@   ensures rm.Doc != nil ==> err != nil
+//@   ensures err != nil ==> r0 == nil
+//
+//@ func (*Applier).applyUpdateOperation
+//@   requires applierOK(s) && anchoredOp != nil && rm != nil && anchoredOp.TransactionTime < big()
+//@   ensures err == nil ==> r0 != nil && fresh(r0) && rm.Doc != nil && authUpdate(anchoredOp.OperationRequest)
+//@   ensures err == nil ==> validMH(boxed(reqDelta(anchoredOp.OperationRequest)), updDeltaHash(reqSD(anchoredOp.OperationRequest))) && reqDelta(anchoredOp.OperationRequest) != nil && deltaValid(s.OperationParser, reqDelta(anchoredOp.OperationRequest))
+//@   ensures err == nil ==> r0.UpdateCommitment == reqDelta(anchoredOp.OperationRequest).UpdateCommitment && r0.RecoveryCommitment == rm.RecoveryCommitment && r0.AnchorOrigin == rm.AnchorOrigin && r0.CreatedTime == rm.CreatedTime && r0.UpdatedTime == anchoredOp.TransactionTime && r0.CanonicalReference == rm.CanonicalReference && r0.EquivalentReferences == rm.EquivalentReferences && !r0.Deactivated && carried(r0, anchoredOp, rm)
+//@   ensures err == nil && !(inWindow(updFrom(reqSD(anchoredOp.OperationRequest)), updUntil(reqSD(anchoredOp.OperationRequest)), anchoredOp.TransactionTime, s.MaxOperationTimeDelta) && patchOK(rm.Doc, reqDelta(anchoredOp.OperationRequest).Patches)) ==> r0.Doc == rm.Doc
+//@   ensures err == nil && inWindow(updFrom(reqSD(anchoredOp.OperationRequest)), updUntil(reqSD(anchoredOp.OperationRequest)), anchoredOp.TransactionTime, s.MaxOperationTimeDelta) && patchOK(rm.Doc, reqDelta(anchoredOp.OperationRequest).Patches) ==> r0.Doc == patched(rm.Doc, reqDelta(anchoredOp.OperationRequest).Patches)
+//@   ensures err != nil ==> r0 == nil
+//
+//@ func (*Applier).applyDeactivateOperation
+//@   requires applierOK(s) && anchoredOp != nil && rm != nil && anchoredOp.TransactionTime < big()
+//@   ensures err == nil ==> r0 != nil && fresh(r0) && rm.Doc != nil && authDeactivate(anchoredOp.OperationRequest)
+//@   ensures err == nil ==> inWindow(deaFrom(reqSD(anchoredOp.OperationRequest)), deaUntil(reqSD(anchoredOp.OperationRequest)), anchoredOp.TransactionTime, s.MaxOperationTimeDelta)
+//@   ensures err == nil ==> r0.Deactivated && r0.UpdateCommitment == "" && r0.RecoveryCommitment == "" && r0.Doc != nil && fresh(r0.Doc)
+//@   ensures err == nil ==> r0.CreatedTime == rm.CreatedTime && r0.UpdatedTime == anchoredOp.TransactionTime && r0.CanonicalReference == rm.CanonicalReference && r0.EquivalentReferences == rm.EquivalentReferences && r0.AnchorOrigin == rm.AnchorOrigin && carried(r0, anchoredOp, rm)
+//@   ensures err != nil ==> r0 == nil
+//
+//@ func (*Applier).applyRecoverOperation
+//@   requires applierOK(s) && anchoredOp != nil && rm != nil && anchoredOp.TransactionTime < big()
+//@   ensures err == nil ==> r0 != nil && fresh(r0) && rm.Doc != nil && authRecover(anchoredOp.OperationRequest)
+//@   ensures err == nil ==> r0.RecoveryCommitment == recCommit(reqSD(anchoredOp.OperationRequest)) && r0.AnchorOrigin == recOrigin(reqSD(anchoredOp.OperationRequest)) && r0.CreatedTime == rm.CreatedTime && r0.UpdatedTime == anchoredOp.TransactionTime && r0.CanonicalReference == anchoredOp.CanonicalReference && r0.EquivalentReferences == anchoredOp.EquivalentReferences && !r0.Deactivated && carried(r0, anchoredOp, rm)
+//@   ensures err == nil && !(validMH(boxed(reqDelta(anchoredOp.OperationRequest)), recDeltaHash(reqSD(anchoredOp.OperationRequest))) && reqDelta(anchoredOp.OperationRequest) != nil && deltaValid(s.OperationParser, reqDelta(anchoredOp.OperationRequest))) ==> r0.UpdateCommitment == "" && r0.Doc != nil && fresh(r0.Doc)
+//@   ensures err == nil && validMH(boxed(reqDelta(anchoredOp.OperationRequest)), recDeltaHash(reqSD(anchoredOp.OperationRequest))) && reqDelta(anchoredOp.OperationRequest) != nil && deltaValid(s.OperationParser, reqDelta(anchoredOp.OperationRequest)) ==> r0.UpdateCommitment == reqDelta(anchoredOp.OperationRequest).UpdateCommitment
+//@   ensures err == nil ==> r0.Doc != nil && r0.Doc != rm.Doc
+//@   ensures err != nil ==> r0 == nil
+//
+//@ func (*Applier).Apply
+//@   requires applierOK(s) && op != nil && rm != nil && op.TransactionTime < big()
+//@   ensures err == nil ==> r0 != nil && (op.Type == operation.TypeCreate || op.Type == operation.TypeUpdate || op.Type == operation.TypeRecover || op.Type == operation.TypeDeactivate)
+//@   ensures err == nil && op.Type == operation.TypeUpdate ==> authUpdate(op.OperationRequest) && r0.RecoveryCommitment == rm.RecoveryCommitment && !r0.Deactivated
+//@   ensures err == nil && op.Type == operation.TypeRecover ==> authRecover(op.OperationRequest) && !r0.Deactivated
+//@   ensures err == nil && op.Type == operation.TypeDeactivate ==> authDeactivate(op.OperationRequest) && r0.Deactivated && r0.UpdateCommitment == "" && r0.RecoveryCommitment == ""
+//@   ensures err == nil && op.Type == operation.TypeCreate ==> rm.Doc == nil && !r0.Deactivated
+//@   ensures err == nil && op.Type != operation.TypeCreate ==> rm.Doc != nil
+//@   ensures err != nil ==> r0 == nil
